@@ -69,6 +69,8 @@ pub fn walpha(name: &str) -> Vec<f64> {
         "w012" => vec![0.0, 1.0, 2.0],
         "wf" => vec![0.1, 0.2, 0.3],
         "wf2" => vec![0.1, 0.2],
+        // three levels far apart: a node improved from 10 to 2 while another waits at 5
+        "wlev" => vec![1.0, 5.0, 10.0],
         // exact in f64, equal after narrowing to f32 (2^24 and 2^24+1), plus a light edge
         "wf32" => vec![16777216.0, 16777217.0, 0.5],
         // node-keyed schemes: an edge is present or absent, its weight is a function of its ends (see `scheme_weight`)
@@ -118,13 +120,15 @@ pub fn fam_hist(kind: Kind, n: usize, walpha: &'static str, orders: &[(u8, u8)])
     Family { kind, n, walpha, orders: orders.to_vec(), min_edges: 0, max_edges: usize::MAX, primed: false, histories: true }
 }
 
-pub const MUTATION_LABELS: [&str; 6] = [
+pub const MUTATION_LABELS: [&str; 8] = [
     "add_node(new name)",
     "add_edge on the first absent pair",
     "add_node(existing name) again",
     "add_node(new name), then add_edge from the first node to it",
     "add_edge parallel to the first edge, other weight (multi-edge kinds)",
     "add_node again for every node",
+    "add_edge on the first edge's pair with a LIGHTER weight (KeepLast specs: replaced; KeepFirst specs: ignored)",
+    "add_edge on the heaviest edge's pair with a weight below every other (KeepLast: replaced; KeepFirst: ignored)",
 ];
 
 /// applies mutation `k` to the real graph IN PLACE and to the abstract description; false = not applicable
@@ -186,6 +190,24 @@ pub fn apply_mutation(b: &mut Built, k: usize, f: &Family) -> bool {
             b.edges.push((u, v, wt));
             true
         }
+        6 | 7 => {
+            // only on single-edge graphs whose specs keep the last / the first of two duplicates (routes 5 and 6)
+            let strategy = b.g.specs.edge_dedupe_strategy.clone();
+            if f.kind.multi || b.edges.is_empty() || matches!(strategy, EdgeDedupeStrategy::Error) || b.edges.iter().any(|e| e.2.is_nan()) {
+                return false;
+            }
+            let ei = if k == 6 { 0 } else { (0..b.edges.len()).max_by(|&x, &y| b.edges[x].2.partial_cmp(&b.edges[y].2).unwrap()).unwrap() };
+            let (u, v, old) = b.edges[ei];
+            let lightest = b.edges.iter().map(|e| e.2).fold(f64::INFINITY, f64::min);
+            let wt = if k == 6 { old / 2.0 } else { lightest / 4.0 };
+            if b.g.add_edge(mk(b.names[u], b.names[v], wt)).is_err() {
+                return false;
+            }
+            if matches!(strategy, EdgeDedupeStrategy::KeepLast) {
+                b.edges[ei] = (u, v, wt);
+            }
+            true
+        }
         _ => {
             if b.n == 0 {
                 return false;
@@ -218,7 +240,7 @@ thread_local! {
 /// that exits early / fails / succeeds in different ways. Whatever such a call leaves behind on the
 /// thread (scratch buffers, memo tables, pool state) must not change any later answer: a primed family
 /// re-checks every graph in the state after each primer (two-call histories across graphs).
-pub const PRIMER_LABELS: [&str; 12] = [
+pub const PRIMER_LABELS: [&str; 13] = [
     "single_source(weighted, target reached early, with_paths) on a 9-node weighted graph",
     "single_source(weighted, cutoff 1.5, first_only) on a 9-node weighted graph",
     "single_source(weighted) returning ContradictoryPaths on a 6-node digraph with a negative edge",
@@ -231,6 +253,7 @@ pub const PRIMER_LABELS: [&str; 12] = [
     "louvain_partitions(weighted, seed 1) and modularity on a 9-node weighted graph",
     "clustering(weighted), triangles, square_clustering on a 9-node weighted graph",
     "eigenvector_centrality(weighted) on a 9-node weighted graph",
+    "all_pairs(weighted) on the forced parallel path returning ContradictoryPaths on a 6-node digraph",
 ];
 
 fn primer_graphs() -> (G2, G2, G2) {
@@ -246,7 +269,9 @@ fn primer_graphs() -> (G2, G2, G2) {
         g
     };
     let und: Vec<(usize, usize, f64)> = vec![(0, 1, 1.0), (1, 2, 2.0), (2, 3, 1.0), (3, 4, 3.0), (4, 5, 1.0), (5, 6, 2.0), (6, 7, 1.0), (7, 8, 1.0), (8, 0, 4.0), (0, 4, 2.0), (2, 6, 5.0), (1, 7, 1.0), (3, 8, 2.0)];
-    let neg: Vec<(usize, usize, f64)> = vec![(0, 1, 1.0), (1, 2, 1.0), (2, 3, -2.0), (3, 4, 1.0), (4, 5, 1.0), (0, 5, 7.0), (1, 4, 3.0)];
+    // 0->1 (1), 0->2 (2), 2->1 (-5): node 1 is settled at distance 1 before 2 is expanded and would improve it to -3,
+    // so every search that reaches node 0 ends in ContradictoryPaths
+    let neg: Vec<(usize, usize, f64)> = vec![(0, 1, 1.0), (0, 2, 2.0), (2, 1, -5.0), (1, 3, 1.0), (3, 4, 1.0), (4, 5, 1.0), (5, 0, 1.0)];
     (mk(false, &und, 9), mk(true, &und, 9), mk(true, &neg, 6))
 }
 
@@ -285,7 +310,12 @@ pub fn run_primer(k: usize) {
             drop(cluster::triangles(&u, None));
             drop(cluster::square_clustering(&u, None));
         }
-        _ => drop(eigenvector::eigenvector_centrality(&u, true, None, None)),
+        11 => drop(eigenvector::eigenvector_centrality(&u, true, None, None)),
+        _ => {
+            graphrs::verif_hooks::set_parallel_override(Some(true));
+            drop(dijkstra::all_pairs(&neg, true, None, None, false, true));
+            graphrs::verif_hooks::set_parallel_override(None);
+        }
     });
 }
 
@@ -376,7 +406,7 @@ pub fn parse_case(case: &str) -> Option<(Family, u64, u8, u8, String)> {
     if !(p.len() == 7 || (p.len() == 8 && (p[7].starts_with('P') || p[7].starts_with('H')))) || p[0] != "g" {
         return None;
     }
-    let wa: &'static str = ["u", "w1", "w12", "w123", "w01", "w012", "wf", "wneg", "wtiny", "whuge", "winf", "wmax", "wf2", "w12inf", "ksrc", "ksrc2", "kdst", "ksum", "wf32"].iter().find(|x| **x == p[3]).copied()?;
+    let wa: &'static str = ["u", "w1", "w12", "w123", "w01", "w012", "wf", "wneg", "wtiny", "whuge", "winf", "wmax", "wf2", "w12inf", "ksrc", "ksrc2", "kdst", "ksum", "wf32", "wlev"].iter().find(|x| **x == p[3]).copied()?;
     let f = Family { kind: Kind::from_idx(p[1].parse().ok()?), n: p[2].parse().ok()?, walpha: wa, orders: vec![], min_edges: 0, max_edges: usize::MAX, primed: p.len() == 8 && p[7].starts_with('P'), histories: p.len() == 8 && p[7].starts_with('H') };
     Some((f, p[4].parse().ok()?, p[5].parse().ok()?, p[6].parse().ok()?, extra))
 }
@@ -478,6 +508,28 @@ pub fn build(f: &Family, idx: u64, no: u8, eo: u8) -> Built {
             let nodes = node_order.iter().map(|&i| Node::from_name(names[i])).collect();
             G2::new_from_nodes_and_edges(nodes, edges.iter().map(mk_edge).collect(), f.kind.specs()).expect("E2 build (route 3): new_from_nodes_and_edges failed")
         }
+        7 => {
+            // a PROPER subgraph of a larger graph that was traversed before: an extra node created first (so every
+            // position shifts by one) with an edge into the graph; then get_subgraph on the graph's own names
+            let mut g0 = G2::new(f.kind.specs());
+            g0.add_node(Node::from_name("zy"));
+            for &i in &node_order {
+                g0.add_node(Node::from_name(names[i]));
+            }
+            for e in &edges {
+                g0.add_edge(mk_edge(e)).expect("E2 build (route 7): add_edge failed");
+            }
+            if f.n > 0 {
+                let w = if f.walpha == "u" { f64::NAN } else { 1.0 };
+                g0.add_edge(std::sync::Arc::new(Edge { u: "zy", v: names[node_order[0]], weight: w, attributes: None })).expect("E2 build (route 7): extra edge");
+            }
+            let _ = g0.breadth_first_search(&"zy");
+            for nm in &names {
+                let _ = g0.breadth_first_search(nm);
+                let _ = g0.get_neighbor_nodes(*nm);
+            }
+            g0.get_subgraph(&names)
+        }
         5 | 6 => {
             // other policy options under which the same calls give the same graph (no duplicate is ever
             // offered to a single-edge graph; parallel edges are kept whatever the duplicate policy)
@@ -514,7 +566,7 @@ pub fn build(f: &Family, idx: u64, no: u8, eo: u8) -> Built {
     Built { kind: f.kind, n: f.n, names, edges, node_order, g, case: case_string(f, idx, no, eo), weighted: f.walpha != "u" }
 }
 
-pub const ROUTE_LABELS: [&str; 7] = [
+pub const ROUTE_LABELS: [&str; 8] = [
     "nodes added, then edges",
     "edges added first under MissingNodeStrategy::Create, then every node added again",
     "result of reverse().reverse() (directed) / get_subgraph(all nodes) (undirected)",
@@ -522,9 +574,10 @@ pub const ROUTE_LABELS: [&str; 7] = [
     "nodes added, then edges, equal parallel edges being one shared Arc",
     "nodes added, then edges, specs with KeepLast / Create / Drop policies",
     "nodes added, then edges, specs with KeepFirst / Create / Drop policies",
+    "get_subgraph(own nodes) of a larger graph (one extra first node) that was traversed before",
 ];
 /// order variants covering every construction route
-pub const ORD_ROUTES: [(u8, u8); 6] = [(12, 1), (22, 0), (32, 1), (42, 1), (52, 0), (62, 1)];
+pub const ORD_ROUTES: [(u8, u8); 7] = [(12, 1), (22, 0), (32, 1), (42, 1), (52, 0), (62, 1), (72, 0)];
 
 impl Built {
     pub fn describe(&self) -> String {
